@@ -105,6 +105,13 @@ CLAIMS = {
          "differential predicate (fails only with j_precompute=True) and reported as KNOWN-FINDING; everything else is a violation. Sampled.",
          "Trusted: vf/oracle_fgg.py references, vf/c11_driver.py, the interpreter flags. bin/sum_product.py itself is exercised by C14's round trip, not here.",
          "DESIGN.md section 5, C11"),
+ 'C12': ("Hypothesis-generated grammars + random presentation transforms (metamorphic relation), both presentations also compared with the independent evaluator",
+         "Each grammar is built twice: as drawn and under a random transform (rule order, node/edge insertion order, explicit vs implicit ids, renamed "
+         "labels, FiniteDomain vs RangeDomain, permuted domain values with factor axes permuted accordingly). sum_product in sampled semiring/method "
+         "configurations, Real/Log gradients mapped back through the permutation, and the weight of the viterbi derivation must agree between the two "
+         "and with the reference. Shards run under different PYTHONHASHSEED values, so set/dict iteration orders inside the solvers vary too. Sampled.",
+         "Trusted: the transform in vf/props/c12.py (self-checked inverse), vf/oracle_fgg.py, Hypothesis.",
+         "DESIGN.md section 5, C12"),
 }
 
 NOT_YET = {}   # id -> reason (filled while the framework is being built)
